@@ -7,6 +7,7 @@ CONSTANTS
   Kids = {"c1", "c2"}
   Family = "lease"
   TTLs = {1, 2, 3, 4}
+  LeaseKeys = {}
   MaxNow = 8
 INVARIANT TypeOK
 CHECK_DEADLOCK FALSE
